@@ -1352,11 +1352,18 @@ def module_constants(tree, names=None):
     """constant-evaluate simple module-level assignments (maxint = 2**31-1 ...)"""
     out = {}
     for s in tree.body:
+        tgt = val = None
         if isinstance(s, ast.Assign) and len(s.targets) == 1 and isinstance(s.targets[0], ast.Name):
-            try:
-                v = eval(compile(ast.Expression(s.value), "<const>", "eval"), {"__builtins__": {}}, dict(out))
-            except Exception:
-                continue
-            if isinstance(v, (int, str, bool)) or v is None:
-                out[s.targets[0].id] = v
+            tgt, val = s.targets[0].id, s.value
+        elif isinstance(s, ast.AnnAssign) and isinstance(s.target, ast.Name) and s.value is not None:
+            tgt, val = s.target.id, s.value
+        if tgt is None:
+            continue
+        try:
+            v = eval(compile(ast.Expression(val), "<const>", "eval"), {"__builtins__": {}}, dict(out))
+        except Exception:
+            out.pop(tgt, None)      # rebound to something that is not a constant: no longer usable
+            continue
+        if isinstance(v, (int, str, bool)) or v is None:
+            out[tgt] = v
     return out
